@@ -1,5 +1,5 @@
 From Coq Require Import Permutation.
-From VP Require Import Base.Tactics Coord.Model Coord.Spec Coord.Props.
+From VP Require Import Base.Tactics Coord.Model Coord.Spec Coord.Props Coord.Legacy.
 Open Scope N_scope.
 
 Check (C32_consistent_under_any_interleaving :
@@ -49,3 +49,10 @@ Check (C32_drain_force_deregister_refuted :
   exists ops, all_steps assumed (init 5) ops = true /\ some_step known_drain (init 5) ops = true /\
               ~ Consistent (sc (run (init 5) ops))).
 Print Assumptions C32_drain_force_deregister_refuted.
+
+(* the defect repaired by fix f5a501f, on the pre-fix commit function *)
+Check (C32_legacy_stale_migration_commit_refuted :
+  exists c m1 m2,
+    Inv c /\ plan_migrate c 16 0 2 = inr m1 /\ plan_migrate c 16 0 3 = inr m2 /\
+    ~ Consistent (legacy_commit_migrate (legacy_commit_migrate c m1) m2)).
+Print Assumptions C32_legacy_stale_migration_commit_refuted.
